@@ -47,6 +47,25 @@ P.update({
             'bestEnergy; enumerated API-call programs (Step/Set*/Finalize/Solve) keep evaluations == total cost calls and the current evaluation monitor complete.',
             'DESIGN.md#c04', ''),
 })
+P.update({
+    'C13': (True, 'model_checking',
+            'The exec-generated constraint functions are called on a solver-quantified vector; z3 closes, per path, that the stated relation holds on the output '
+            '(strictly for < > !=), that only the isolated variable changes and that feasible input passes through unchanged (with margin tolerance(rhs) for strict '
+            'comparators; inside the band it is the recorded finding D4); multi-line non-feeding systems, named variables, bounds constraints; strictness under IEEE '
+            'doubles is a QF_FP lemma over the tolerance() kernel read from the source.', 'DESIGN.md#c13', ''),
+    'C14': (True, 'model_checking',
+            'generate_conditions / generate_penalty products are called on a solver-quantified vector: condition value = oriented lhs-rhs, <=0 iff relation '
+            '(=0 iff equality), strict comparators within tolerance; penalty zero iff every line satisfied, positive otherwise, equal to the documented per-line sum; '
+            'penalty(constraint(x)) = 0 for text compiled both ways; 12-variable texts (x1 vs x10).', 'DESIGN.md#c14', ''),
+    'C17': (True, 'model_checking',
+            'constraints.and_/or_/not_ are run with independent uninterpreted idempotent members and solver-chosen cycle-breaking draws: on every path that returns '
+            'through onexit the result is fixed by every / some member (changed by the member for not_), otherwise onfail fired exactly once; coupler identities with '
+            'uninterpreted f, c, p; penalty and_/or_/not_ zero-sets.', 'DESIGN.md#c17', ''),
+    'C20': (True, 'model_checking',
+            'Operation programs over two real Monitors (call, extend, prepend, +, slices, int/list index) with solver-quantified x, y (scalar or vector), ids and '
+            'k != 0: after every operation each monitor equals the harness shadow list record by record; operands are never altered. In-memory half only.',
+            'DESIGN.md#c20', 'FILE HALF NOT CLAIMED (LoggingMonitor / munge round trips): decimal float formatting has no solver encoding.'),
+})
 
 NOT_YET = 'check not built yet in this round (planned: DESIGN.md section 4)'
 
